@@ -1,0 +1,39 @@
+//go:build verif
+// +build verif
+
+package scan
+
+import "math/big"
+
+// Exports for the verification harness (build tag "verif"); add-only, no behaviour change.
+
+type VerifRangeIterator struct{ it *rangeIterator }
+
+func VerifNewRangeIterator(n int64) (*VerifRangeIterator, error) {
+	it, err := newRangeIterator(n)
+	if err != nil {
+		return nil, err
+	}
+	return &VerifRangeIterator{it}, nil
+}
+
+func (v *VerifRangeIterator) Next() bool    { return v.it.Next() }
+func (v *VerifRangeIterator) Int() *big.Int { return v.it.Int() }
+
+// VerifGroup returns the parameters of the (randomised) group the iterator walks.
+func (v *VerifRangeIterator) VerifGroup() (p, g, startI *big.Int) {
+	return v.it.P, v.it.G, v.it.startI
+}
+
+func VerifCyclicGroups() [][3]int64 {
+	out := make([][3]int64, 0, len(cyclicGroups))
+	for _, c := range cyclicGroups {
+		out = append(out, [3]int64{c.P, c.G, c.N})
+	}
+	return out
+}
+
+var VerifErrRangeSize = errRangeSize
+
+func VerifValidatePorts(ports []*PortRange) error { return validatePorts(ports) }
+
